@@ -39,6 +39,10 @@ type EngOp struct {
 	Banp *world.BANP      `json:"banp,omitempty"`
 	NS   string           `json:"ns"`
 	Name string           `json:"name"`
+	// SetRes: the arguments of one SetResources call (namespaces, policies, pods -- inserted in this order, the call stops at the first error)
+	Nss  []nsRec           `json:"nss"`
+	Nps  []world.Netpol    `json:"nps"`
+	Pods []world.EnginePod `json:"pods"`
 }
 
 type nsRec struct {
@@ -158,6 +162,30 @@ func applyOp(pe *eval.PolicyEngine, c *world.Conc, o *EngOp) (res, msg string) {
 		pe.ClearResources()
 		return "ok", ""
 	}
+	if o.Op == "SetRes" {
+		var nss []*corev1.Namespace
+		var nps []*netv1.NetworkPolicy
+		var pods []*corev1.Pod
+		for i := range o.Nss {
+			n := &corev1.Namespace{}
+			typed(c.NamespaceObj(o.Nss[i].Name, o.Nss[i].Labels), n)
+			nss = append(nss, n)
+		}
+		for i := range o.Nps {
+			n := &netv1.NetworkPolicy{}
+			typed(c.NetpolObj(&o.Nps[i]), n)
+			nps = append(nps, n)
+		}
+		for i := range o.Pods {
+			p := &corev1.Pod{}
+			typed(c.PodObj(&o.Pods[i]), p)
+			pods = append(pods, p)
+		}
+		if err := pe.SetResources(nps, pods, nss); err != nil {
+			return "error", err.Error()
+		}
+		return "ok", ""
+	}
 	obj := toObject(c, o)
 	var err error
 	if strings.HasPrefix(o.Op, "Ins") {
@@ -172,6 +200,24 @@ func applyOp(pe *eval.PolicyEngine, c *world.Conc, o *EngOp) (res, msg string) {
 }
 
 func (st *engState) track(o *EngOp, res string) {
+	if o.Op == "SetRes" {
+		// SetResources = inserts of the namespaces, then the policies, then the pods; it stops at the first error (a policy whose
+		// name is taken). Whatever was inserted before stays -- tracked by the same rule, whatever the call returned.
+		for i := range o.Nss {
+			st.nss[o.Nss[i].Name] = &o.Nss[i]
+		}
+		for i := range o.Nps {
+			k := o.Nps[i].NS + "/" + o.Nps[i].Name
+			if _, taken := st.nps[k]; taken {
+				return
+			}
+			st.nps[k] = &o.Nps[i]
+		}
+		for i := range o.Pods {
+			st.pods[o.Pods[i].NS+"/"+o.Pods[i].Name] = &o.Pods[i]
+		}
+		return
+	}
 	if res != "ok" {
 		return
 	}
@@ -394,6 +440,15 @@ func replayHistory(em *emitter, id int, src string, ops []EngOp, seed int64) {
 			em.emit(doSweep(pe, st, conc, w, i))
 			em.emit(doPeek(pe, st, conc, w))
 			continue
+		}
+		if o.Nss == nil {
+			o.Nss = []nsRec{}
+		}
+		if o.Nps == nil {
+			o.Nps = []world.Netpol{}
+		}
+		if o.Pods == nil {
+			o.Pods = []world.EnginePod{}
 		}
 		res, msg := applyOp(pe, conc, o)
 		st.track(o, res)
